@@ -234,6 +234,29 @@ def trigamma_consts(tree, text):
     return cuts, lead, r1[1:], cs
 
 
+def kl_literals(tree, text):
+    """literals inside approximate_gamma_kl: `alpha = c / (log x - logx)` and `if 1.0 / alpha < c: return`"""
+    fn = next((n for n in ast.walk(tree) if isinstance(n, ast.FunctionDef) and n.name == "approximate_gamma_kl"), None)
+    if fn is None:
+        raise Unsupported("approx.approximate_gamma_kl not found")
+    init = cut = None
+    for st in fn.body:
+        if isinstance(st, ast.Assign) and isinstance(st.targets[0], ast.Name) and st.targets[0].id == "alpha" \
+                and isinstance(st.value, ast.BinOp) and isinstance(st.value.op, ast.Div):
+            init = evaluate(st.value.left, text)
+        if isinstance(st, ast.If) and isinstance(st.test, ast.Compare) and len(st.test.ops) == 1 \
+                and isinstance(st.test.ops[0], ast.Lt) and isinstance(st.test.left, ast.BinOp) \
+                and isinstance(st.test.left.op, ast.Div) and isinstance(st.test.left.right, ast.Name) \
+                and st.test.left.right.id == "alpha" and evaluate(st.test.left.left, text) == 1:
+            cut = evaluate(st.test.comparators[0], text)
+    if init is None or cut is None:
+        raise Unsupported("approximate_gamma_kl: initial value `c / (log x - logx)` or `if 1.0 / alpha < c` not found")
+    return ["/-- `alpha = c / (np.log(x) - logx)` in `approximate_gamma_kl`. -/",
+            f"def approximate_gamma_kl.init_num : Rat := {rat(init)}",
+            "/-- `if 1.0 / alpha < c: return alpha - 1.0, alpha / x` (asymptotic regime). -/",
+            f"def approximate_gamma_kl.asym_cutoff : Rat := {rat(cut)}"]
+
+
 # ---------------------------------------------------------------------------------------- emission
 
 def rat_list(xs):
@@ -305,6 +328,8 @@ def generate_text():
                 "/-- `np.euler_gamma` (the double). -/",
                 f"def euler_gamma_f64 : Rat := {rat(NUMPY_CONSTS['np.euler_gamma'])}",
             ]
+        if module == "approx":
+            special += kl_literals(tree, text)
         if not (consts or defaults or special):
             continue
         shas[module] = hashlib.sha256(text.encode()).hexdigest()
